@@ -178,7 +178,28 @@ def _kind_of(body, env, cls):
             t = U(st.test)
             if t == "self.tag != 'TAG_FILE'":
                 src = U(st)
-                if 'while s_number != 0:' in src and src.count("struct_parse(structs.Elf_uleb128('s_number'), stream)") == 2 and 'self.extra.append(s_number)' in src:
+                # a list of ULEB128 numbers closed by 0 (canonical loop form: one read at the head of each iteration, leave on 0,
+                # otherwise keep the number)
+                lps = [l for l in ast.walk(st) if isinstance(l, ast.While)]
+                good = False
+                for l in lps:
+                    seen = set()
+                    okl = True
+                    for p in paths.enum_paths(l.body):
+                        ev = expr.path_events(p, env)
+                        stm = [x[1] for x in ev if x[0] == 's']
+                        cs = [x[1] for x in ev if x[0] == 'c']
+                        zero = expr.CP(expr.spec_cond('s_number == 0'), True)
+                        if not stm or stm[0] != "s_number = struct_parse(structs.Elf_uleb128('s_number'), stream)" or len(cs) != 1 or cs[0][0] != zero[0]:
+                            okl = False
+                        elif cs[0] == zero:
+                            seen.add('end')
+                            okl = okl and stm[1:] == [] and p.end[0] == 'break'
+                        else:
+                            seen.add('keep')
+                            okl = okl and stm[1:] == ['self.extra.append(s_number)'] and p.end[0] == 'fall'
+                    good = good or (okl and seen == {'end', 'keep'})
+                if good and 'self.extra = []' in src:
                     sig.append('uleb-list?')      # applies to the non-FILE keys of the branch
             elif t == 'type(self.value.value) is not str':
                 src = U(st)
